@@ -171,8 +171,9 @@ impl<A, C: Clock, F: Filter, R: Rng, S: PtpInstanceStateMutex> Port<'_, InBmca, 
 
         match recommended_state {
             RecommendedState::M1(defaultds) | RecommendedState::M2(defaultds) => {
-                // a slave-only PTP port should never end up in the master state
-                debug_assert!(!default_ds.slave_only);
+                // A slave-only instance gets these decisions too (whenever it hears no
+                // better master); set_recommended_port_state keeps its ports out of the
+                // master state.
 
                 current_ds.steps_removed = 0;
 
